@@ -257,6 +257,9 @@ def _name_indirect_calls(body):
                 n["indirect"] = fn["rec"]
 
 
+PROGRAM_STATS = []
+
+
 class Program:
     """all units of one configuration"""
 
@@ -301,6 +304,9 @@ class Program:
                 g = dict(g)
                 g["unit"] = u
                 self.globals[g["n"]].append(g)
+        PROGRAM_STATS.append({"configuration": tag or config, "units": len(self.units),
+                              "functions_with_bodies": sum(1 for _ in self.all_funcs()),
+                              "flags": " ".join(frontend.BASE_FLAGS[:1] + frontend.CONFIGS[config] + list(extra_flags or []))})
 
     def all_funcs(self, with_headers=False):
         """every function definition located in a .c unit (once)"""
